@@ -59,6 +59,21 @@ CLAIMS = {
         "Fall times are trusted inputs (C14); in EOM mode only the weakest reading is enforced model-free. Bounded depth/alphabet.",
         "DESIGN.md §3 C10",
     ),
+    "C09": (
+        "fault_enumeration",
+        "explicit-state BFS over valid call histories x exhaustive invalid-call and read-only menus at every reachable state; "
+        "full-snapshot equality before/after; differential rebuild oracles",
+        "Every state reachable by <= 2-4 valid calls (16-op core incl. EOM, DMM, variables, measure; XY world separately) is "
+        "hit with each of 74 invalid calls (one per failure cause and operation: durations, limits, targets, channels, names, "
+        "modes, protocols, over-long sequence via each op, foreign/unknown variables, calls after measure) and 14 read-only "
+        "operations (str, sample +- modulation, draw with every flag, durations, phase refs, delay estimates, both serialisers, "
+        "observers, build); a refused or read-only call must leave the full snapshot (timeline, EOM blocks, phase references, "
+        "mode flags, call log) identical; every state must equal its build() copy, its switch_register(same register) copy and, "
+        "up to depth 2-3, its abstract-repr round trip.",
+        "Known findings (non-atomic multi-step operations under max_sequence_duration, declare_channel with a bad initial "
+        "target) are listed in known_findings.json. Bounded depth; fault menu as listed in mc/props/c09.py.",
+        "DESIGN.md §3 C09",
+    ),
 }
 
 PENDING_REASON = "check not built yet in this round (design in DESIGN.md §3); nothing is claimed for it"
